@@ -191,6 +191,16 @@ def work(args):
                 b = build(impl, kind, far)
                 if a == b or b == a:
                     rec['problems'].append('coordinate %d differs by 4.5·eps (eps=1e-%d) but the objects compare equal' % (k, sig))
+                # the same with EXACT rational coordinates (Fraction in, Fraction kept): 9/2·eps apart is unequal, eps/1000 apart is equal
+                ctor = impl.Point if kind == 'P' else impl.Vector
+                fe = F(1, 10 ** sig)
+                fa = ctor(*[F(c) for c in o])
+                ffar = ctor(*[F(c) + (F(9, 2) * fe if t == k else 0) for t, c in enumerate(o)])
+                fnear = ctor(*[F(c) + (fe / 1000 if t == k else 0) for t, c in enumerate(o)])
+                if fa == ffar or ffar == fa:
+                    rec['problems'].append('Fraction coordinates: coordinate %d differs by 9/2·eps (eps=1e-%d) but the objects compare equal' % (k, sig))
+                if not (fa == fnear and fnear == fa):
+                    rec['problems'].append('Fraction coordinates: coordinate %d differs by eps/1000 (eps=1e-%d) but the objects compare unequal' % (k, sig))
             # objects created (and compared / hashed) under ANOTHER tolerance must follow the current one afterwards:
             # two objects `gap` apart with default eps < gap < configured eps are unequal at the default and equal now
             if sig <= 8:
